@@ -571,6 +571,9 @@ def run(ck):
     ck.not_decided = ('timing of expiry; that policy actually denies unrequested replies for a given '
                       'configuration (C06); histories with serial reuse across wrap-around')
     for v, prog in ck.programs(thorough_variants=('B',)):
+        from rules import listops
+        rq = ck.rule('C09.9', 'the public list operations do what their names say (dbus/dbus-list.c; abstract interpretation of their CFG over every circular list of 0..3 links with equal and distinct data, every link / anchor / data argument, with and without memory for a new link): resulting order, return value, freed and detached links agree with the specification of append, prepend, insert_after, remove (first match), remove_last / find_last (last match), remove_link, clear, get/pop first/last (link), get_length, length_is_one', 'ABS', breaks='the pending-reply list drops or duplicates an entry when another one is removed or expires: a reply is refused as unrequested, or a slot is never freed', floor=15)
+        listops.check(prog, rq)
         c09_1(ck, prog)
         c09_2(ck, prog)
         c09_3(ck, prog)
